@@ -13,12 +13,16 @@ namespace LS.GenTie
 
 /-- a hand-model outcome of an infallible `()` method, as a step: a refused allocation is the panic of
 `unwrap_with_msg`, a panicking callback unwinds -/
-def stepOfResV (rf : Refuse) (st : List Bytes) : Res Unit → Step Unit Unit
+def stepOfResV {ρ : Type} (rf : Refuse) (st : List Bytes) : Res Unit → Step ρ Unit
   | .ok _ hp r => .next () ⟨rf, st, hp, r⟩
   | .err hp r => .palloc ⟨rf, st, hp, r⟩
   | .pidx hp r => .pidx ⟨rf, st, hp, r⟩
   | .pcb hp r => .pcb ⟨rf, st, hp, r⟩
   | .ub u => .ub u
+
+theorem norm_stepOfResV {ρ : Type} (rf : Refuse) (st : List Bytes) (res : Res Unit) :
+    (norm (stepOfResV rf st res : Step Unit Unit) : Step ρ Unit) = stepOfResV rf st res := by
+  cases res <;> rfl
 
 /-- `self.push_str(s)` (the infallible one) from a state of the invariant -/
 theorem ls_push_str_good {ocf base st hp r t} (g : Good ocf base st hp r t) (rf : Refuse) (s : Bytes) (hs : Valid s) :
@@ -27,9 +31,9 @@ theorem ls_push_str_good {ocf base st hp r t} (g : Good ocf base st hp r t) (rf 
   cases pushStr rf st hp r s <;> rfl
 
 /-- `for s in iter { self.push_str(s) }` is the model's `pushLoop` -/
-theorem push_str_loop {w : World} {h : Nat} (rf : Refuse) : ∀ (items : List (Option Str)) (hp : Heap) (r : Handle),
+theorem push_str_loop {ρ : Type} {w : World} {h : Nat} (rf : Refuse) : ∀ (items : List (Option Str)) (hp : Heap) (r : Handle),
     IsGood w h hp r → (∀ t, some t ∈ items → Valid t.b) →
-    forLoop (fun s => Rt.bind (Rt.call (GenRepr.LeanString.push_str s)) fun _ => Rt.pure ()) items ⟨rf, w.statics, hp, r⟩ =
+    (forLoop (fun s => Rt.bind (Rt.call (GenRepr.LeanString.push_str s)) fun _ => Rt.pure ()) items : M ρ Unit) ⟨rf, w.statics, hp, r⟩ =
       stepOfResV rf w.statics (pushLoop rf w.statics hp r (items.map (Option.map (·.b)))) := by
   intro items
   induction items with
@@ -42,12 +46,12 @@ theorem push_str_loop {w : World} {h : Nat} (rf : Refuse) : ∀ (items : List (O
       obtain ⟨t, g⟩ := hg
       have hvs := hv s (List.mem_cons_self ..)
       have hs := pushStr_sat g rf s.b hvs
-      simp only [forLoop, List.map_cons, Option.map_some, pushLoop, bind_ap, call_norm, ls_push_str_good g rf s.b hvs]
+      simp only [forLoop, List.map_cons, Option.map_some, pushLoop, bind_ap, call_norm, ls_push_str_good g rf s.b hvs, norm_stepOfResV]
       revert hs
       cases pushStr rf w.statics hp r s.b with
       | ok v hp1 r1 =>
         intro g1
-        simp only [stepOfResV, norm_next, pure_ap]
+        simp only [stepOfResV, pure_ap]
         exact ih hp1 r1 ⟨_, g1⟩ (fun s' hs' => hv s' (List.mem_cons_of_mem _ hs'))
       | err hp1 r1 => intro _; rfl
       | pidx hp1 r1 => intro hf; exact hf.elim
@@ -72,9 +76,9 @@ theorem ls_push_good {ocf base st hp r t} (g : Good ocf base st hp r t) (rf : Re
   rw [push_is, try_push_is ch h4, push_str_norm_good g rf ch.b hs]
   cases pushStr rf st hp r ch.b <;> rfl
 
-theorem push_loop {w : World} {h : Nat} (rf : Refuse) : ∀ (items : List (Option Chr)) (hp : Heap) (r : Handle),
+theorem push_loop {ρ : Type} {w : World} {h : Nat} (rf : Refuse) : ∀ (items : List (Option Chr)) (hp : Heap) (r : Handle),
     IsGood w h hp r → (∀ c, some c ∈ items → Valid c.b ∧ c.b.length ≤ 4) →
-    forLoop (fun ch => Rt.bind (Rt.call (GenRepr.LeanString.push ch)) fun _ => Rt.pure ()) items ⟨rf, w.statics, hp, r⟩ =
+    (forLoop (fun ch => Rt.bind (Rt.call (GenRepr.LeanString.push ch)) fun _ => Rt.pure ()) items : M ρ Unit) ⟨rf, w.statics, hp, r⟩ =
       stepOfResV rf w.statics (pushLoop rf w.statics hp r (items.map (Option.map (·.b)))) := by
   intro items
   induction items with
@@ -87,12 +91,12 @@ theorem push_loop {w : World} {h : Nat} (rf : Refuse) : ∀ (items : List (Optio
       obtain ⟨t, g⟩ := hg
       obtain ⟨hvs, h4⟩ := hv c (List.mem_cons_self ..)
       have hs := pushStr_sat g rf c.b hvs
-      simp only [forLoop, List.map_cons, Option.map_some, pushLoop, bind_ap, call_norm, ls_push_good g rf c hvs h4]
+      simp only [forLoop, List.map_cons, Option.map_some, pushLoop, bind_ap, call_norm, ls_push_good g rf c hvs h4, norm_stepOfResV]
       revert hs
       cases pushStr rf w.statics hp r c.b with
       | ok v hp1 r1 =>
         intro g1
-        simp only [stepOfResV, norm_next, pure_ap]
+        simp only [stepOfResV, pure_ap]
         exact ih hp1 r1 ⟨_, g1⟩ (fun s' hs' => hv s' (List.mem_cons_of_mem _ hs'))
       | err hp1 r1 => intro _; rfl
       | pidx hp1 r1 => intro hf; exact hf.elim
